@@ -324,14 +324,4 @@ def constraints_installed_midrun(ctx):
 def and_falls_back_to_bounds(ctx):
     """all six coupling sites build and_(self._constraints, self._strictbounds, onfail=self._strictbounds) under strict ranges and self._constraints otherwise"""
     for key, m in _coupling_sites(ctx):
-        sn = selfname_of(m)
-        asg = [s for s in stmts_of(m.node) if isinstance(s, ast.Assign) and isinstance(s.targets[0], ast.Name) and s.targets[0].id == 'constraints']
-        ctx.need(asg, 'no `constraints = ...` in %s' % m.qualname)
-        for s in asg:
-            gs = guards_of(s, stop=m.node)
-            strict = [g[1] for g in gs if ''.join(unparse(g[0]).split()) == '%s._useStrictRange' % sn]
-            ctx.need(strict, 'constraints assignment not under a _useStrictRange test in %s' % m.qualname)
-            want = D.constraints_term(sn, strict[0])
-            ctx.stats['terms_compared'] += 1
-            ctx.check(t(s.value) == want, '%s#coupling[strict=%s]' % (m.qualname, strict[0]), 'constraints = %s' % T.show(want),
-                      'constraints are coupled as %s (expected %s)' % (unparse(s.value), T.show(want)), m, s)
+        D.check_coupling(ctx, key, m)
